@@ -54,6 +54,14 @@ def variants(d, rng: random.Random):
                 if c != base_codes[i]:
                     out.append((f"key{i+1}", corpus.build_payload(d, {**base_codes, i: c})))
                     break
+    # two key fields: pairs of key values whose decimal texts glue to the same string (1|11 and 11|1, 2|20 and 22|0):
+    # a hash over a separator-less concatenation cannot tell them apart
+    keys = [i for i, f in enumerate(d["fields"]) if f["pk"] and i in base_codes and f["match"] == -1 and f["len"] >= 5
+            and f["kind"] in ("num", "lookup", "int")]
+    for a, b in zip(keys, keys[1:]):
+        for (x1, y1), (x2, y2) in (((1, 11), (11, 1)), ((2, 20), (22, 0)), ((1, 2), (12, 0))):
+            out.append((f"glue{a+1}-{b+1}", corpus.build_payload(d, {**base_codes, a: x1, b: y1})))
+            out.append((f"glue{a+1}-{b+1}", corpus.build_payload(d, {**base_codes, a: x2, b: y2})))
     return out
 
 
